@@ -116,6 +116,28 @@ def gen_conv(rng, tier):
     return tasks
 
 
+def gen_extra(rng, tier):
+    """(a) conv_nd with operands of different dtypes (integer images, float32 / float64 / integer filters with fractional taps); (b) window / step / dilation sequences with a
+    non-integer entry, which must be refused"""
+    tasks = []
+    for xdt, wdt in itertools.product(["int64", "uint8", "int16", "float32", "float64"], ["float64", "float32", "int64"]):
+        for i in range(6 if tier == "thorough" else 3):
+            x = rng.randint(3, 6)
+            W = rng.randint(1, 3)
+            D = rng.choice([1, 1, 2]) if (W - 1) * 2 + 1 <= x else 1
+            slack = x - ((W - 1) * D + 1)
+            S = rng.choice([s for s in (1, 2, 3) if slack % s == 0])
+            tasks.append({"kind": "conv", "xs": [x, x], "ps": [0, 0], "Ws": [W, W], "Ss": [S, S], "Ds": [D, D], "N": 1, "C": rng.randint(1, 2), "F": rng.randint(1, 2), "seed": 1000 + i,
+                          "xdt": xdt, "wdt": wdt})
+    for which, bad in itertools.product(("window", "step", "dilation"), (2.5, 1.5, 2.0)):
+        for pos in (0, 1):
+            t = {"kind": "swv_nonint", "shape": [3, 6, 8], "window": [2, 3], "step": [1, 1], "dilation": [2, 2]}
+            t[which] = list(t[which])
+            t[which][pos] = bad
+            tasks.append(t)
+    return tasks
+
+
 def gen_pool(rng, tier):
     tasks = []
     for x, P, S in itertools.product(range(1, 9), range(1, 5), range(1, 5)):
@@ -215,6 +237,8 @@ def nontrivial(t):
         return any(s != 1 for s in norm(t["step"], k)) or any(d != 1 for d in norm(t["dilation"], k, 1))
     if t["kind"] == "conv":
         return any(s != 1 for s in t["Ss"]) or any(d != 1 for d in t["Ds"]) or any(p != 0 for p in t["ps"])
+    if t["kind"] == "swv_nonint":
+        return True
     return any(s != 1 for s in t["Ss"])
 
 
@@ -231,12 +255,17 @@ def run(rep, work, tier, seed, props, replay=None):
     if replay is not None:
         tasks = [replay["task"]]
     else:
-        tasks = load_corpus() + [f["witness"] for f in kf.values()] + gen_swv(rng, tier) + gen_conv(rng, tier) + gen_pool(rng, tier)
+        tasks = load_corpus() + [f["witness"] for f in kf.values()] + gen_swv(rng, tier) + gen_conv(rng, tier) + gen_pool(rng, tier) + gen_extra(rng, tier)
     results = run_tasks(tasks)
     n_viol = 0
     disagreements = 0
     known_hits = 0
     stats = {}
+    for i, t in enumerate(tasks):
+        if t["kind"] == "swv_nonint" and results[i].get("oracle"):
+            n_viol += 1
+            if n_viol <= 12:
+                rep.violation({"kind": "property oracle failed on the implementation", "task": t, "impl": results[i]})
     for kind in ("swv", "conv", "pool"):
         idx = [i for i, t in enumerate(tasks) if t["kind"] == kind]
         if not idx:
